@@ -23,6 +23,37 @@ communicator of the process again.
 Self-test of the added dimensions: the interpolation-closure cache keyed without dx (see C06) -> VIOLATION interp!=W u dx^d,
 interp(vector)!=W u dx^d, bilinear-identity(scalar|vector), every witness on the 'sibling' object.
 
+Argument dimensions (added later; nothing asserted before was changed; every new execution is compared with the SAME dense reference
+at the SAME tolerances -- never with another execution; ``_Ref`` only collects the reference/tolerance formulas that used to be inline):
+ (a) array layout -- every third batch (``c06.batch_layout``) passes EVERY caller-supplied array as a non-contiguous array holding the
+     same values: Eulerian input fields, Lagrangian outputs, the pre-filled spreading TARGETS (the kernel must add into the caller's
+     view), marker forces, support / weight buffers, as "views" (interior of a sentinel-padded parent or every second element of a
+     parent; 1-D Lagrangian arrays as every second element) or "fortran" (column-major; (d, N) arrays are (N, d) storage passed as
+     ``.T``); marker positions as (N, d) storage passed as ``.T``.  Results are read back with ``np.ascontiguousarray``.  Counters
+     batches_layout_views / _fortran, kernel_calls_with_noncontiguous_array_arguments.  EXCLUDED: strided marker positions / index
+     buffers (numba refuses ``reshape`` on them at typing -- see the C06 docstring; counter excluded_layout_strided_positions:*).
+ (b) histories of temporary views -- once per communicator object (``_history``) K = 3..6 rounds {support, weights, scalar and vector
+     interpolation, scalar and vector spreading into pre-filled targets} in a tight loop where every array argument is
+     ``stack[name][k]`` (fresh temporary views of different memory; CPython recycles their id()); afterwards every slot is compared with
+     the dense reference of ITS marker set, field, target and force.  Counters histories_of_temporary_view_arguments,
+     history_slots_compared.
+ (c) exact zeros -- an all-zero marker force spread into a finite pre-filled (sentinel-free) target leaves every cell unchanged, and a
+     vector force with a component that is exactly zero in every spread leaves that grid component unchanged (0 * w added to a finite
+     value; compared by value because -0.0 + 0.0 = +0.0).  Counters zero_force_spreads_into_prefilled_target,
+     vector_spreads_with_exactly_zero_force_component.  (All-zero Eulerian fields: the 'spikes' fields already contain all-zero windows
+     and the interpolation floor vanishes there; C06 drives the all-zero field.)
+ (d) scalar types -- as C06: one more communicator per shard built with dx / eul_grid_coord_shift as python floats (variant A) / 0-d
+     arrays (B) / np.float64 (C) / 0-d float64 arrays (D); the kernels take no scalar at call time.
+Self-test of (a)-(d) (tools/mut.sh, quick tier, seed 0, ...Communicator2D.py; each reported VIOLATION, every witness carries the new dimension):
+ 15 (a) scalar spreading adds into ``np.ascontiguousarray(eul_grid_field)`` (a copy for non-contiguous targets)   spread(scalar)-left-target-unchanged, bilinear-identity(scalar),
+                                                                                                                   force-integral(scalar), first moment: all 51 witnesses 'layout': views | fortran
+ 16 (b) __init__ wraps the spreading kernel with a cache of prepared target views keyed by id(target)             spread(scalar|vector)!=target+W^T F / -left-target-unchanged: 86 witnesses are
+        (``out = cache[id(t)] = t[...]``, no reference to t kept)                                                  history slots, 31 layout batches (their targets are temporary views too), 3 ordinary
+                                                                                                                   batches AFTER a history whose recycled ids hit the poisoned cache
+ 17 (c) scalar spreading: ``if not lag_grid_field.any(): eul_grid_field[...] = 0.0; return`` before the loop      spread(scalar)-of-zero-force-changes-target only (all other statistics unchanged)
+ 18 (d) __init__: ``if not isinstance(dx, np.floating): dx = np.float32(dx)``                                     interp / spread vs dense, bilinear, force integral, first moment in the float64
+                                                                                                                   shards, every witness on the 'scalar-types' object
+
 Tolerances are a-priori rounding models (``e_m = eps_t + eps64*(|X_m|/dx + 2)`` as in C06, S = cells with
 |r_a| < 2.5 in every direction, n_c = markers touching cell c times number of spreads):
   interpolation   4*4^d*eps_t*sum|W||u|dx^d + 32*e_m*d*2^-d*sum_S|u|            (dot product + weight noise)
@@ -74,7 +105,9 @@ RULE = (
     "random non-square/non-cubic grids; marker sets: uniform, all in one cell, a few neighbouring cells, "
     "duplicated (up to 64 copies of one position), mixed on-centre/on-face/ulp-perturbed; fields: noise/big/"
     "small/smooth/spikes/checker/integer; targets zero or pre-filled; 1-5 successive spreads; scalar and vector "
-    "variants.  A case is non-trivial when field and marker force are non-zero; distinct = (dim, dtype, kernel, "
+    "variants; every third batch with all array arguments as non-contiguous views; one history of 3-6 rounds with "
+    "temporary-view arguments per communicator; all-zero forces; one communicator per shard built with python-float / "
+    "0-d-array scalars.  A case is non-trivial when field and marker force are non-zero; distinct = (dim, dtype, kernel, "
     "N class, marker-set class, field kind / spread count, sub-check)."
 )
 ASSUMPTIONS = [
@@ -101,6 +134,14 @@ REQUIRE = {
     "batches_N_equals_dim": 20,
     "batches_more_than_1024_markers_2d": 20,
     "batches_more_than_1024_markers_3d": 20,
+    "batches_layout_views": 100,
+    "batches_layout_fortran": 100,
+    "kernel_calls_with_noncontiguous_array_arguments": 2000,
+    "histories_of_temporary_view_arguments": 50,
+    "history_slots_compared": 150,
+    "zero_force_spreads_into_prefilled_target": 1000,
+    "vector_spreads_with_exactly_zero_force_component": 40,
+    "batches_comm_built_with_other_scalar_types": 100,
 }
 
 EPS64 = c06.EPS64
@@ -202,6 +243,9 @@ def run_shard(sh, rec):
     if sh["variant"] == "B":
         entries.append((c06.BIG_N[d], "bigN"))  # > 1024 markers: dense W on a small grid
     entries += [(c06.SIBLINGS[d][sh["variant"]], "sibling"), (POOL[d][sh["variant"]][0], "first-again")]
+    # one more communicator whose scalar constructor arguments (dx, eul_grid_coord_shift) are passed as another scalar type (C06's entry
+    # and type per variant: shared numba cache)
+    entries.append((c06.POOL[d][sh["variant"]][0], "scalar-types"))
     first = None
     npred = 0
     for (x_range, nx, N), role in entries:
@@ -227,14 +271,19 @@ def run_shard(sh, rec):
                     rec.count("other_precision_predecessors_same_dyadic_dx")
                 except Exception as e:
                     rec.note(f"other-precision predecessor failed: {type(e).__name__}: {e}")
+            skind = c06.SCALAR_TYPES[sh["variant"]] if role == "scalar-types" else None
             try:
-                comm = c06.Comm(d, dx_t, N, real_t, kernel, positional=(role == "sibling"))
+                if skind is None:
+                    comm = c06.Comm(d, dx_t, N, real_t, kernel, positional=(role == "sibling"))
+                else:
+                    comm = c06.Comm(d, dx_t, N, real_t, kernel, dx_arg=c06.scalar_as(skind, dx_t), shift_arg=c06.scalar_as(skind, real_t(dx_t / 2)))
             except Exception as e:
-                rec.violation("communicator-construction-raises", f"{type(e).__name__}: {e} dx={dxf} N={N}", None)
+                rec.violation("communicator-construction-raises", f"{type(e).__name__}: {e} dx={dxf} N={N} scalar type {skind}", None)
                 rec.case(None)
                 continue
             if first is None and role == "pool":
                 first = comm
+                c06.probe_excluded_layout(rec, rng, comm)
         if tier == "quick":
             nb = 30 if N >= 128 else 50
         else:
@@ -244,6 +293,7 @@ def run_shard(sh, rec):
         elif role != "pool":
             nb = max(10, nb // 4)
         off = int(rng.integers(len(MARKER_SETS)))
+        hist_at = int(rng.integers(nb))  # one history of temporary views per object, somewhere between its batches
         for b in range(nb):
             kind = MARKER_SETS[(b + off) % len(MARKER_SETS)]
             if N == 1 and kind in ("duplicates",):
@@ -253,7 +303,10 @@ def run_shard(sh, rec):
                 rec.count("batches_grid_y_exceeds_x")
             if d == 3 and shape[0] > shape[-1]:
                 rec.count("batches_grid_z_exceeds_x")
-            rec.count({"pool": "batches_pool_comm", "bigN": "batches_pool_comm", "sibling": "batches_sibling_comm_shared_dx_or_N", "first-again": "batches_first_comm_after_sibling"}[role])
+            rec.count({"pool": "batches_pool_comm", "bigN": "batches_pool_comm", "sibling": "batches_sibling_comm_shared_dx_or_N", "first-again": "batches_first_comm_after_sibling",
+                       "scalar-types": "batches_comm_built_with_other_scalar_types"}[role])
+            if role == "scalar-types":
+                rec.count(f"batches_dx_and_shift_passed_as_{c06.SCALAR_TYPES[sh['variant']]}")
             if N > 1024:
                 rec.count(f"batches_more_than_1024_markers_{d}d")
             if N == d:
@@ -262,7 +315,19 @@ def run_shard(sh, rec):
             P = marker_set(rng, kind, N, shape, dx_t, real_t, x_range, dom.position_field, rec)
             base = (d, sh["dtype"], kernel, c06.n_class(N), kind)
             meta = {"dim": d, "dtype": sh["dtype"], "kernel": kernel, "x_range": x_range, "shape": shape, "dx": dxf, "N": N, "markers": kind, "object": role}
+            if role == "scalar-types":
+                meta["dx_and_shift_passed_as"] = c06.SCALAR_TYPES[sh["variant"]]
+            layout = c06.batch_layout(b)
+            comm.set_layout(rng, layout)
+            if layout is not None:
+                meta["layout"] = layout
+                rec.count("batches_noncontiguous_array_arguments")
+                rec.count(f"batches_layout_{layout}")
             _check_batch(rec, rng, comm, P, shape, dxf, shiftf, eps, base, meta, kernel, real_t)
+            comm.flush_calls(rec)
+            if b == hist_at:
+                _history(rec, rng, comm, shape, dx_t, x_range, dom.position_field, dxf, shiftf, eps, base[:4], {k: v for k, v in meta.items() if k != "layout"}, kernel, real_t)
+        comm.set_layout(rng, None)
 
 
 def _fld(rng, shape, kind, real_t, lead=()):
@@ -287,6 +352,43 @@ def _overwrite_model_explains(target, T0, W, Fs, tol, vector):
     return util.err_over_tol(target, T, tol) <= 1
 
 
+class _Ref:
+    """dense reference operators and noise floors of one marker set (the formulas of the module docstring)"""
+
+    def __init__(self, P, shape, dxf, shiftf, eps, kernel):
+        d, N = P.shape
+        self.d, self.N, self.dxf, self.eps, self.vol = d, N, dxf, eps, dxf**d
+        self.W = ib.dense_weights(P, shape, dxf, kernel, shiftf)  # (N, *grid)
+        # cells a legitimate window may touch: |r_a| < 2.5 in every direction (covers floor and floor-1 windows);
+        # only used to size the tolerances
+        near = [(np.abs(ib.scaled_distances(P[d - 1 - ax], shape[ax], dxf, shiftf)) < 2.5).astype(np.float64) for ax in range(d)]
+        self.S = np.einsum("mj,mi->mji", *near) if d == 2 else np.einsum("mk,mj,mi->mkji", *near)
+        self.kap = c06.kappa(P, dxf)
+        self.e_m = eps + EPS64 * self.kap
+        self.wnoise = K_W * d * 0.5**d  # weight noise floor, in units of e_m / dx^d
+        self.touch = ib.spread(self.S, np.ones(N))  # markers touching each cell
+        self.n_max = float(self.touch.max())
+        self.kdot = K_DOT * 4**d
+
+    def interp(self, u):
+        """(W u dx^d, its noise floor, W |u| dx^d) for a scalar (*grid) or vector (d, *grid) field"""
+        absI = ib.interpolate(self.W, np.abs(u), self.dxf)
+        ref = ib.interpolate(self.W, u, self.dxf)
+        tol = self.kdot * self.eps * absI + self.wnoise * self.e_m * ib.interpolate(self.S, np.abs(u), self.dxf) / self.vol + 1e-300
+        return ref, tol, absI
+
+    def spread(self, T0, Fs):
+        """(T0 + sum_k W^T F_k, its noise floor) for len(Fs) successive spreads into a target that held T0"""
+        ns = len(Fs)
+        Fsum = np.sum([f.astype(np.float64) for f in Fs], axis=0)
+        Fabs = np.sum([np.abs(f.astype(np.float64)) for f in Fs], axis=0)
+        ref = T0.astype(np.float64) + ib.spread(self.W, Fsum)
+        A = ib.spread(self.W, Fabs)
+        B = ib.spread(self.S, Fabs * self.e_m)
+        tol = (K_ACC + 0.5 * ns * self.touch) * self.eps * (np.abs(T0.astype(np.float64)) + A) + self.wnoise * B / self.vol + 1e-300
+        return ref, tol, Fsum
+
+
 def _check_batch(rec, rng, comm, P, shape, dxf, shiftf, eps, base, meta, kernel, real_t):
     d, N = comm.d, comm.N
     vol = dxf**d
@@ -301,17 +403,8 @@ def _check_batch(rec, rng, comm, P, shape, dxf, shiftf, eps, base, meta, kernel,
         rec.violation("support-window-outside-grid-or-nan-weights", f"index range {idx.min(axis=1)}..{idx.max(axis=1)} on grid {shape} {meta}", wit)
         rec.case(None)
         return
-    W = ib.dense_weights(P, shape, dxf, kernel, shiftf)  # (N, *grid)
-    # cells a legitimate window may touch: |r_a| < 2.5 in every direction (covers floor and floor-1 windows);
-    # only used to size the tolerances
-    near = [(np.abs(ib.scaled_distances(P[d - 1 - ax], shape[ax], dxf, shiftf)) < 2.5).astype(np.float64) for ax in range(d)]
-    S = np.einsum("mj,mi->mji", *near) if d == 2 else np.einsum("mk,mj,mi->mkji", *near)
-    kap = c06.kappa(P, dxf)
-    e_m = eps + EPS64 * kap
-    wnoise = K_W * d * 0.5**d  # weight noise floor, in units of e_m / dx^d
-    touch = ib.spread(S, np.ones(N))  # markers touching each cell
-    n_max = float(touch.max())
-    kdot = K_DOT * 4**d
+    R = _Ref(P, shape, dxf, shiftf, eps, kernel)
+    W, S, kap, e_m, wnoise, touch, n_max, kdot = R.W, R.S, R.kap, R.e_m, R.wnoise, R.touch, R.n_max, R.kdot
     if n_max >= 64:
         rec.count("batches_with_64_or_more_markers_on_one_cell")
 
@@ -325,11 +418,9 @@ def _check_batch(rec, rng, comm, P, shape, dxf, shiftf, eps, base, meta, kernel,
         lagv = comm.interp(rng, uv, vector=True)
     except Exception as e:
         rec.violation("interpolation-raises", f"{type(e).__name__}: {e} {meta}", wit)
-    absI = ib.interpolate(W, np.abs(u), dxf)
-    absIv = ib.interpolate(W, np.abs(uv), dxf)
+    ref, tol, absI = R.interp(u)
+    refv, tolv, absIv = R.interp(uv)
     if lag is not None and lagv is not None:
-        ref = ib.interpolate(W, u, dxf)
-        tol = kdot * eps * absI + wnoise * e_m * ib.interpolate(S, np.abs(u), dxf) / vol + 1e-300
         r = util.err_over_tol(lag, ref, tol)
         rec.stat("interp_vs_dense", r)
         rec.stat(f"interp_{meta['dtype']}_{d}d", r)
@@ -338,8 +429,6 @@ def _check_batch(rec, rng, comm, P, shape, dxf, shiftf, eps, base, meta, kernel,
         if r > 1:
             m = int(np.argmax(np.abs(lag.astype(np.float64) - ref) / tol)) if np.all(np.isfinite(lag)) else 0
             rec.violation("interp!=W u dx^d", f"marker {m} at {P[:, m]}: kernel {lag[m]} dense {ref[m]} err/tol {r:.3g} field {fk} {meta}", {**wit, "u": u})
-        refv = ib.interpolate(W, uv, dxf)
-        tolv = kdot * eps * absIv + wnoise * e_m[None, :] * ib.interpolate(S, np.abs(uv), dxf) / vol + 1e-300
         r = util.err_over_tol(lagv, refv, tolv)
         rec.stat("interp_vector_vs_dense", r)
         rec.count("interp_values_vs_dense", N * d)
@@ -359,7 +448,7 @@ def _check_batch(rec, rng, comm, P, shape, dxf, shiftf, eps, base, meta, kernel,
         tag = "vector" if vector else "scalar"
         prefilled = rng.random() < 0.6
         T0 = util.field(rng, lead + tuple(shape), str(rng.choice(["noise", "big", "small", "int"])), real_t) if prefilled else np.zeros(lead + tuple(shape), real_t)
-        target = T0.copy()
+        target = comm.lay(rng, T0.copy())  # the kernel writes into this array (a non-contiguous view in the layout batches)
         ns = int(rng.integers(1, 6))
         Fs = []
         ok = True
@@ -377,12 +466,8 @@ def _check_batch(rec, rng, comm, P, shape, dxf, shiftf, eps, base, meta, kernel,
                 break
         if not ok:
             continue
-        Fsum = np.sum([f.astype(np.float64) for f in Fs], axis=0)
-        Fabs = np.sum([np.abs(f.astype(np.float64)) for f in Fs], axis=0)
-        ref = T0.astype(np.float64) + ib.spread(W, Fsum)
-        A = ib.spread(W, Fabs)
-        B = ib.spread(S, Fabs * e_m)
-        tol = (K_ACC + 0.5 * ns * touch) * eps * (np.abs(T0.astype(np.float64)) + A) + wnoise * B / vol + 1e-300
+        target = np.ascontiguousarray(target)
+        ref, tol, Fsum = R.spread(T0, Fs)
         r = util.err_over_tol(target, ref, tol)
         rec.stat(f"spread_{tag}_vs_dense", r)
         rec.stat(f"spread_{meta['dtype']}_{d}d", r)
@@ -394,6 +479,18 @@ def _check_batch(rec, rng, comm, P, shape, dxf, shiftf, eps, base, meta, kernel,
         if vector:
             rec.count("vector_component_pairs_checked", d)
         rec.case((*base, tag, "prefilled" if prefilled else "zero", min(ns, 2), "spread"))
+        if vector:
+            # a force component that is exactly zero in every spread adds 0 * w to its grid component: values unchanged exactly
+            for c in range(d):
+                if all(not np.any(f[c]) for f in Fs):
+                    rec.count("vector_spreads_with_exactly_zero_force_component")
+                    if not np.array_equal(target[c], T0[c]):
+                        loc = tuple(int(x[0]) for x in np.nonzero(~(target[c] == T0[c])))
+                        rec.violation(
+                            "spread(vector)-zero-force-component-changes-target",
+                            f"force component {c} is exactly zero in all {ns} spreads but grid component {c} changed at cell {loc}: {float(T0[c][loc])!r} -> {float(target[c][loc])!r} {meta}",
+                            {**wit, "T0": T0, "F": Fs},
+                        )
         if r > 1:
             got = target.astype(np.float64)
             loc = np.unravel_index(int(np.argmax(np.where(np.isfinite(got), np.abs(got - ref) / tol, np.inf))), got.shape)
@@ -413,6 +510,25 @@ def _check_batch(rec, rng, comm, P, shape, dxf, shiftf, eps, base, meta, kernel,
                 {**wit, "T0": T0, "F": Fs},
             )
 
+    # ------------------------------------------------- an exactly-zero marker force into a finite (sentinel-free) pre-filled target
+    # every contribution is 0 * w with finite w: the field keeps its values exactly (compared by value: -0.0 + 0.0 is +0.0)
+    for vector in (False, True):
+        lead = (d,) if vector else ()
+        tag = "vector" if vector else "scalar"
+        T0 = util.field(rng, lead + tuple(shape), str(rng.choice(["noise", "big", "small", "int"])), real_t)
+        target = comm.lay(rng, T0.copy())
+        try:
+            comm.spread(target, np.zeros(lead + (N,), real_t), vector=vector)
+        except Exception as e:
+            rec.violation("spreading-raises", f"{tag}, zero force: {type(e).__name__}: {e} {meta}", wit)
+            continue
+        target = np.ascontiguousarray(target)
+        rec.count("zero_force_spreads_into_prefilled_target")
+        rec.case((*base, tag, "spread-zero-force"))
+        if not np.array_equal(target, T0):
+            loc = tuple(int(x[0]) for x in np.nonzero(~(target == T0)))
+            rec.violation(f"spread({tag})-of-zero-force-changes-target", f"cell {loc} (array order): {float(T0[loc])!r} -> {float(target[loc])!r} after spreading an all-zero marker force {meta}", {**wit, "T0": T0})
+
     # ------------------------------------------------- reference-free identities on the two real outputs
     for vector in (False, True):
         lead = (d,) if vector else ()
@@ -423,12 +539,13 @@ def _check_batch(rec, rng, comm, P, shape, dxf, shiftf, eps, base, meta, kernel,
         uu = uv if vector else u
         aI = absIv if vector else absI
         Fm = (rng.standard_normal(lead + (N,)) * 10.0 ** float(rng.uniform(-2, 2))).astype(real_t)
-        sf = np.zeros(lead + tuple(shape), real_t)
+        sf = comm.lay(rng, np.zeros(lead + tuple(shape), real_t))
         try:
             comm.spread(sf, Fm, vector=vector)
         except Exception as e:
             rec.violation("spreading-raises", f"{tag}: {type(e).__name__}: {e} {meta}", wit)
             continue
+        sf = np.ascontiguousarray(sf)
         Fl = Fm.astype(LD)
         sfl = sf.astype(LD)
         acc = K_ACC + 0.5 * n_max
@@ -486,3 +603,89 @@ def _check_batch(rec, rng, comm, P, shape, dxf, shiftf, eps, base, meta, kernel,
                     tq = (lambda M: [M[0, 1] - M[1, 0]] if d == 2 else [M[1, 2] - M[2, 1], M[2, 0] - M[0, 2], M[0, 1] - M[1, 0]])
                     msg += f"; torque grid {tq(Mg)} markers {tq(Mm)}"
                 rec.violation(f"peskin-first-moment({tag})-not-preserved", f"{msg} {meta}", {**wit, "F": Fm, "p": p})
+
+
+def _history(rec, rng, comm, shape, dx_t, x_range, pf, dxf, shiftf, eps, base4, meta, kernel, real_t):
+    """K calls of every kernel of ONE communicator in a tight loop in which every array argument is a TEMPORARY view ``stack[name][k]`` of
+    different memory (marker sets, index/support/weight buffers, fields, outputs, pre-filled targets, forces: the view objects die after
+    each call and CPython hands their id() to the next ones); afterwards every slot is compared with the dense reference at the module's
+    tolerances."""
+    d, N = comm.d, comm.N
+    K = 3 if N >= 128 else int(rng.integers(3, 7))
+    kinds = [MARKER_SETS[int(i)] for i in rng.permutation(len(MARKER_SETS))][:K] + ["uniform"] * max(0, K - len(MARKER_SETS))
+    kinds = ["uniform" if (N == 1 and k == "duplicates") else k for k in kinds]
+    sh_ = tuple(shape)
+    S = {
+        "P": np.stack([marker_set(rng, k, N, shape, dx_t, real_t, x_range, pf, rec) for k in kinds]),
+        "idx": np.full((K, d, N), -(2**40), dtype=int),
+        "sup": util.sentinel_like(rng, (K,) + comm._bufs[None][1].shape, real_t).copy(),
+        "w": util.sentinel_like(rng, (K,) + comm._bufs[None][2].shape, real_t).copy(),
+        "u": np.stack([_fld(rng, shape, str(rng.choice(FIELD_KINDS)), real_t) for _ in range(K)]),
+        "uv": np.stack([np.stack([_fld(rng, shape, str(rng.choice(FIELD_KINDS)), real_t) for _ in range(d)]) for _ in range(K)]),
+        "lag": util.sentinel_like(rng, (K, N), real_t).copy(),
+        "lagv": util.sentinel_like(rng, (K, d, N), real_t).copy(),
+        "T": np.stack([util.field(rng, sh_, str(rng.choice(["noise", "big", "small", "int"])), real_t) for _ in range(K)]),
+        "Tv": np.stack([util.field(rng, (d,) + sh_, str(rng.choice(["noise", "big", "small", "int"])), real_t) for _ in range(K)]),
+        "F": np.stack([(rng.standard_normal(N) * 10.0 ** float(rng.uniform(-2, 2))).astype(real_t) for _ in range(K)]),
+        "Fv": np.stack([(rng.standard_normal((d, N)) * 10.0 ** float(rng.uniform(-2, 2))).astype(real_t) for _ in range(K)]),
+    }
+    before = {n: S[n].copy() for n in ("P", "u", "uv", "T", "Tv", "F", "Fv")}
+    sc, vc = comm.scalar, comm.vector
+    try:
+        for k in range(K):
+            sc.local_eulerian_grid_support_of_lagrangian_grid_kernel(
+                local_eul_grid_support_of_lag_grid=S["sup"][k], nearest_eul_grid_index_to_lag_grid=S["idx"][k], lag_positions=S["P"][k]
+            )
+            sc.interpolation_weights_kernel(interp_weights=S["w"][k], local_eul_grid_support_of_lag_grid=S["sup"][k])
+            sc.eulerian_to_lagrangian_grid_interpolation_kernel(
+                lag_grid_field=S["lag"][k], eul_grid_field=S["u"][k], interp_weights=S["w"][k], nearest_eul_grid_index_to_lag_grid=S["idx"][k]
+            )
+            vc.eulerian_to_lagrangian_grid_interpolation_kernel(
+                lag_grid_field=S["lagv"][k], eul_grid_field=S["uv"][k], interp_weights=S["w"][k], nearest_eul_grid_index_to_lag_grid=S["idx"][k]
+            )
+            sc.lagrangian_to_eulerian_grid_interpolation_kernel(
+                eul_grid_field=S["T"][k], lag_grid_field=S["F"][k], interp_weights=S["w"][k], nearest_eul_grid_index_to_lag_grid=S["idx"][k]
+            )
+            vc.lagrangian_to_eulerian_grid_interpolation_kernel(
+                eul_grid_field=S["Tv"][k], lag_grid_field=S["Fv"][k], interp_weights=S["w"][k], nearest_eul_grid_index_to_lag_grid=S["idx"][k]
+            )
+    except Exception as e:
+        rec.violation("history-of-temporary-views-raises", f"{type(e).__name__}: {e} call {k + 1} of {K} {meta}", {"meta": meta, "P": before["P"]})
+        rec.case(None)
+        return
+    rec.count("histories_of_temporary_view_arguments")
+    rec.count("kernel_calls_with_temporary_view_arguments", 6 * K)
+    for n in ("P", "u", "uv", "F", "Fv"):
+        if not util.bits_equal(S[n], before[n]):
+            rec.violation("kernel-input-modified", f"argument stack {n!r} changed during the history {meta}", {"meta": meta})
+    for k in range(K):
+        P = before["P"][k]
+        m = {**meta, "markers": kinds[k], "history": f"call {k + 1} of {K} with temporary views stack[name][k] of different memory"}
+        wit = {"meta": m, "P": P, "idx": S["idx"][k].copy(), "w": S["w"][k].copy()}
+        comm.adopt(S["idx"][k], S["sup"][k], S["w"][k])
+        inside = comm.windows_inside(shape).all()
+        comm.set_layout(rng, None)
+        if not inside or not np.all(np.isfinite(S["w"][k])):
+            rec.violation("support-window-outside-grid-or-nan-weights", f"index range {S['idx'][k].min(axis=1)}..{S['idx'][k].max(axis=1)} on grid {shape} {m}", wit)
+            rec.case(None)
+            continue
+        R = _Ref(P, shape, dxf, shiftf, eps, kernel)
+        for tag, got, fld in (("", S["lag"][k], before["u"][k]), ("(vector)", S["lagv"][k], before["uv"][k])):
+            ref, tol, _ = R.interp(fld)
+            r = util.err_over_tol(got, ref, tol)
+            rec.stat("interp_vector_vs_dense" if tag else "interp_vs_dense", r)
+            rec.count("interp_values_vs_dense", got.size)
+            if r > 1:
+                rec.violation(f"interp{tag}!=W u dx^d", f"kernel {got[..., 0]} dense {ref[..., 0]} (marker 0 at {P[:, 0]}) err/tol {r:.3g} {m}", {**wit, "u": fld})
+        for tag, got, T0, F in (("scalar", S["T"][k], before["T"][k], before["F"][k]), ("vector", S["Tv"][k], before["Tv"][k], before["Fv"][k])):
+            ref, tol, _ = R.spread(T0, [F])
+            r = util.err_over_tol(got, ref, tol)
+            rec.stat(f"spread_{tag}_vs_dense", r)
+            rec.count("spread_cells_vs_dense", got.size)
+            if r > 1:
+                gotf = got.astype(np.float64)
+                loc = np.unravel_index(int(np.argmax(np.where(np.isfinite(gotf), np.abs(gotf - ref) / tol, np.inf))), gotf.shape)
+                mech = f"spread({tag})-left-target-unchanged" if util.bits_equal(got, T0) else f"spread({tag})!=target+W^T F"
+                rec.violation(mech, f"cell {tuple(int(x) for x in loc)} (array order): kernel {gotf[loc]} expected {ref[loc]} (target before {float(T0[loc])}) err/tol {r:.3g} {m}", {**wit, "T0": T0, "F": [F]})
+        rec.count("history_slots_compared")
+        rec.case((*base4, kinds[k], "temporary-view-history"), sample=m)
